@@ -37,13 +37,15 @@ Proof. exact total_on_any_graph. Qed.
 Print Assumptions C10_total_on_any_graph.
 
 (** what UpdateQueueHierarchy leaves: a well-formed sub-graph of the input in which every stored
-    ChildQueues entry of a remaining queue is itself a remaining queue with that parent *)
+    ChildQueues entry of a remaining queue is itself a remaining queue with that parent, and
+    which keeps (unchanged) every queue whose own parent chain reaches a root *)
 Theorem C10_hierarchy_spec :
   forall g : qgraph, nodup_keys (keys g) = true ->
     exists g2, update_queue_hierarchy (fuel_of g) g = Done g2 /\
                wellformed g2 = true /\
                (forall e, In e g2 -> In e g) /\
-               (forall x c, lookup g2 x <> None -> In c (hierarchy_children g x) -> lookup g2 c = Some (Some x)).
+               (forall x c, lookup g2 x <> None -> In c (hierarchy_children g x) -> lookup g2 c = Some (Some x)) /\
+               (forall x n, steps_to_root g x n -> lookup g2 x = lookup g x /\ lookup (clean_cycles g) x = lookup g x).
 Proof. exact hierarchy_spec. Qed.
 Print Assumptions C10_hierarchy_spec.
 
@@ -139,6 +141,27 @@ Theorem C10_subgroups_total :
                forall n m, In (n, m) l -> (1 <= m)%Z).
 Proof. exact subgroups_total. Qed.
 Print Assumptions C10_subgroups_total.
+
+(** (4) Non-interference in the model of the allocate path restricted to queues: extra Queue
+    objects (malformed or not) next to [g] do not change the eligibility verdict (passes
+    InitializeWithJobs and both capacity walks, after UpdateQueueHierarchy) of a job whose own
+    queue chain is well formed, unless one of them names the job's queue as its parent. *)
+Theorem C10_healthy_unaffected :
+  forall (g e : qgraph) (s1 s2 : qid -> bool) (q : qid) (n : nat),
+    nodup_keys (keys (g ++ e)) = true ->
+    steps_to_root g q n ->
+    (forall c, ~ In (c, Some q) e) ->
+    eligible (fuel_of (g ++ e)) (g ++ e) s1 s2 q = eligible (fuel_of g) g s1 s2 q.
+Proof. exact healthy_unaffected_holds. Qed.
+Print Assumptions C10_healthy_unaffected.
+
+Theorem C10_healthy_nonvacuous :
+  let g := [(1%positive, None); (2%positive, Some 1%positive)] in
+  let e := [(3%positive, Some 3%positive); (4%positive, Some 9%positive); (5%positive, Some 1%positive)] in
+  nodup_keys (keys (g ++ e)) = true /\ steps_to_root g 2%positive 1 /\ (forall c, ~ In (c, Some 2%positive) e) /\
+  eligible (fuel_of (g ++ e)) (g ++ e) (fun _ => false) (fun _ => false) 2%positive = Done true.
+Proof. exact healthy_example. Qed.
+Print Assumptions C10_healthy_nonvacuous.
 
 (** Non-vacuity: a three-level forest meets the hypothesis of (1) and its walks return the
     expected values; sub-group lists of each kind behave as stated. *)
